@@ -7,6 +7,13 @@ Stream
                 Structured cases (built from the property's grammar, the structure travels in the
                 case) additionally go through the oracle: an independent brute-force reference of
                 the property statement. Raw (hostile) header text is compared with the model only.
+  accept-api    Request.accept_mimetypes / accept_charsets / accept_encodings / accept_languages built
+                from a request whose *other* Accept-* headers would change the answer if read, and the
+                rest of the API on them: best_match(default=), best, values(), to_header() / str() and
+                its re-parse, index(), self[key], self[i], accept_html / accept_xhtml / accept_json
+                vs Model.Accept (driver command `api`); oracle: the negotiation clauses on the
+                attribute, the default exactly when nothing is acceptable, to_header() re-parses to
+                the same items.
 """
 from __future__ import annotations
 
@@ -570,18 +577,173 @@ class NegotiationStream(Stream):
                 yield dict(case, offers=case["offers"][:i] + case["offers"][i + 1 :])
 
 
+
+# --------------------------------------------------------------------------
+# the Request attributes and the rest of the Accept API
+
+ATTRS = {"mime": ("accept_mimetypes", "Accept"), "charset": ("accept_charsets", "Accept-Charset"), "accept": ("accept_encodings", "Accept-Encoding"), "lang": ("accept_languages", "Accept-Language")}
+HEADER_NAMES = ["Accept", "Accept-Charset", "Accept-Encoding", "Accept-Language"]
+Q_API = [None, "0", "0.001", "0.5", "1", "1.000", "0.0", "0.999", "0.25", "0.50", "0.7", "0.0001", "0.1234", "abc", "2", "-1", "1.5", "00.5", "1.", "0.3333333333"]
+
+
+class AcceptApiStream(NegotiationStream):
+    """Request.accept_mimetypes / accept_charsets / accept_encodings / accept_languages (each reads
+    its own header and builds its own class) and the methods around best_match:
+    best_match(default=), best, values(), to_header() / str() and its re-parse, index(), self[key],
+    self[i], accept_html / accept_xhtml / accept_json. Model: Accept.requestAccept & co (command `api`)."""
+
+    name = "accept-api"
+
+    def __init__(self):
+        super().__init__()
+        S = self.S
+
+        def A(cls, items, offers, others=None, default=None, idx=0, style=0):
+            c = S(cls, items, offers, style)
+            c.update({"others": others or {}, "default": default, "idx": idx})
+            return c
+
+        self.A = A
+        self.corpus = [
+            A("mime", [("text/html", [], "0.1"), ("*/*", [], "0.9")], ["image/png", "text/html"], default="x/y"),
+            A("mime", [("application/xhtml+xml", [], "0.9")], ["text/html"]),
+            A("mime", [("application/xml", [], "0")], ["application/xml"], idx=1),
+            A("mime", [("application/json", ["v=2"], None), ("text/*", [], "0.5")], ["application/json"]),
+            A("mime", [], ["text/html"], default="text/plain"),
+            A("lang", [("en-US", [], "0"), ("de", [], "0.5")], ["en"], default="fr"),
+            A("lang", [("en", [], "0.5")], ["fr"], others={"Accept": "fr", "Accept-Charset": "fr", "Accept-Encoding": "fr"}, default="zz"),
+            A("charset", [("utf-8", [], "0.7"), ("*", [], "0.1")], ["latin1"], others={"Accept-Encoding": "latin1;q=0"}),
+            A("accept", [("gzip", [], "0.0001"), ("br", [], "0.1234")], ["br", "gzip"], others={"Accept": "gzip;q=0"}),
+            A("accept", [("gzip", [], "1.000"), ("br", [], "0.50")], ["zstd"], default="identity", idx=5),
+        ]
+
+    def cases(self, rng, tier):
+        limit = 1500 if tier == "quick" else 40000
+        for _ in range(limit):
+            cls = rng.choice(CLASSES)
+            n = rng.choice([0, 1, 1, 2, 2, 3, 3, 4])
+            items = []
+            for _ in range(n):
+                it = self.rand_item(rng, cls, False)
+                it["q"] = rng.choice(Q_API)
+                items.append(it)
+            offers = self.rand_offers(rng, cls, False, items)
+            others = {}
+            for h in HEADER_NAMES:
+                if h != ATTRS[cls][1] and rng.random() < 0.4:
+                    # the other Accept-* headers carry something that would change the answer if read
+                    others[h] = rng.choice([offers[0] + ";q=0", "*;q=0", "*/*;q=0", offers[-1], "zz;q=1"])
+            yield {"cls": cls, "items": items, "offers": offers, "style": rng.randrange(48), "others": others, "default": rng.choice([None, None, "dflt", offers[0]]), "idx": rng.choice([0, 0, 1, 2, 7])}
+
+    def request_attr(self, case):
+        from werkzeug.test import EnvironBuilder
+        from werkzeug.wrappers import Request
+
+        name, header = ATTRS[case["cls"]]
+        h = dict(case["others"])
+        if case["items"]:
+            h[header] = render(case)
+        return getattr(Request(EnvironBuilder(headers=h).get_environ()), name)
+
+    def real(self, case):
+        a = self.request_attr(case)
+        offers = case["offers"]
+        items = out_list(hs(v) + "=" + canonq(q) for v, q in a)
+        kw = {} if case["default"] is None else {"default": case["default"]}
+        best = opt(hs, a.best_match(offers, **kw))
+        idx = []
+        for o in offers:
+            try:
+                idx.append(str(a.index(o)))
+            except ValueError:
+                idx.append("ValueError")
+        try:
+            iv = a[case["idx"]]
+            iv = hs(iv[0]) + "=" + canonq(iv[1])
+        except IndexError:
+            iv = "~"
+        flags = "~"
+        if case["cls"] == "mime":
+            flags = ",".join(b01(x) for x in (a.accept_html, a.accept_xhtml, a.accept_json))
+        th = a.to_header()
+        assert str(a) == th
+        return "|".join([items, best, opt(hs, a.best), out_list(hs(v) for v in a.values()), hs(th), out_list(idx), out_list(canonq(a[o]) for o in offers), iv, flags])
+
+    def model_line(self, case):
+        name, header = ATTRS[case["cls"]]
+        h = dict(case["others"])
+        if case["items"]:
+            h[header] = render(case)
+        if not all(in_model_domain(v, case["offers"]) for v in h.values()) or any(it["q"] is not None and it["q"].startswith("-0") for it in case["items"]):
+            return None
+        aliases = "[]"
+        if case["cls"] == "charset":
+            names = {v for v, _ in self.request_attr(case)} | set(case["offers"])
+            aliases = out_list(hs(n) + ":" + hs(cnorm(n)) for n in sorted(names))
+        return line("api", name, out_list(hs(k) + ":" + hs(v) for k, v in sorted(h.items())), out_list(hs(o) for o in case["offers"]), aliases, opt(hs, case["default"]), case["idx"])
+
+    def oracle(self, case, real_out):
+        if real_out.startswith("EXC"):
+            return f"Accept API raised {real_out}"
+        f = real_out.split("|")
+        offers, cls = case["offers"], case["cls"]
+        if any(q_status(it["q"]) == "grey" for it in case["items"]):
+            return None
+        # the negotiation clauses on the attribute (the other Accept-* headers must play no role)
+        neg = "|".join([f[0], "~" if (f[1] != "~" and case["default"] is not None and unhs(f[1]) == case["default"] and case["default"] not in offers) else f[1], f[6], "[]", "[]"])
+        what = self.strict(dict(case), neg.split("|"), case["items"])
+        if what is not None:
+            if case["default"] is not None and case["default"] in offers:
+                return None  # the default is itself an offer: ambiguous read-back
+            return what
+        valid = valid_items(case["items"])
+        # best_match(default=): the default exactly when nothing is chosen
+        want, _ = ref_negotiate(cls, case["items"], offers)
+        have = None if f[1] == "~" else unhs(f[1])
+        if want is None and have != case["default"]:
+            return f"best_match(default={case['default']!r}) = {have!r} although no offer is acceptable"
+        # to_header() re-parses to the same items (normal form)
+        from werkzeug.datastructures import Accept, CharsetAccept, LanguageAccept, MIMEAccept
+        from werkzeug.http import parse_accept_header
+
+        k = {"accept": Accept, "mime": MIMEAccept, "lang": LanguageAccept, "charset": CharsetAccept}[cls]
+        back = parse_accept_header(unhs(f[4]), k)
+        items2 = out_list(hs(v) + "=" + canonq(q) for v, q in back)
+        if items2 != f[0]:
+            return f"to_header() {unhs(f[4])!r} parses back to {items2}, not to the items {f[0]}"
+        return None
+
+    def finding_key(self, case, what):
+        return None
+
+    def nontrivial(self, case, real_out):
+        return "|" in real_out and real_out.split("|")[0] != "[]"
+
+    def bucket(self, case, real_out):
+        f = real_out.split("|")
+        return f"{case['cls']}:{'none' if len(f) < 2 or f[1] == '~' else 'chosen'}:{'dflt' if case['default'] else 'nodflt'}"
+
+    def mutate(self, case, rng):
+        for c in super().mutate(case, rng):
+            yield c
+        if case["others"]:
+            yield dict(case, others={})
+
 CHECK = Check(
     prop="C17",
-    gen=["AcceptTbl", "PyFns_Accept"],
-    modules=["WzVerif.Props.C17", "WzVerif.Props.C17T"],
-    streams=[NegotiationStream(), PreludeKernels()],
+    gen=["AcceptTbl", "AcceptApi", "PyFns_Accept"],
+    modules=["WzVerif.Props.C17", "WzVerif.Props.C17T", "WzVerif.Props.C17T2"],
+    streams=[NegotiationStream(), AcceptApiStream(), PreludeKernels()],
     assumptions=[
+        "round 3 (Props/C17T2): Accept._specificity / _value_matches, MIMEAccept._specificity / _value_matches (with _normalize_mime; sorted() of the parameter lists = the model's permutation test), LanguageAccept._value_matches (with _normalize_lang), CharsetAccept._value_matches (nested _normalize; the codec registry is a parameter), Accept.values, best, to_header (float printing as a parameter agreeing with the model's qRepr), __getitem__(str), MIMEAccept.accept_html / accept_xhtml / accept_json are regenerated from the source by tools/py2lean.py (Gen/PyFns_Accept.lean) and proved equal to the fields of acceptNeg / mimeNeg / langNeg / charsetNeg and to the model's accessor functions for all inputs (incl. exactly when MIMEAccept raises ValueError); the regexes _mime_split_re / _locale_delim_re enter as the model's mimeSplit / splitLang with their pattern sources pinned",
         "Accept._best_single_match / quality / __contains__ / index / find / best_match and LanguageAccept.best_match are regenerated from the source by tools/py2lean.py (Gen/PyFns_Accept.lean) on every run and proved equal to the hand model for all inputs (Props/C17T; the class-specific _specificity / _value_matches and the orders are the fields of the model's Neg structure, Accept(...) is the model's stable sort, the -1 sentinels are parameters assumed <= 0); bestMatch_optimal and lang_zero_never_chosen are restated on the translated loops",
         "float() of a string matched by _q_value_re and float comparison agree with exact decimal arithmetic (q literals below 14 characters; validated by the stream, longer literals are outside the model)",
         "str.lower() is modelled for ASCII text only (non-ASCII headers / offers are checked by the oracle but not compared with the model)",
         "codecs.lookup(name).name is an opaque parameter of the model (alias table computed by the harness with the same library call)",
         "urllib.request.parse_http_list, parse_options_header (without RFC 2231 key*= values), dump_options_header and the two regex splits are hand-modelled and validated by the stream",
         "sorted(a) == sorted(b) on parameter lists is modelled as multiset equality (List.isPerm)",
+        "Request.accept_* (header read, class built), the media types of MIMEAccept.accept_html/xhtml/json and the set of methods each Accept class overrides are read from the AST / class dicts into Gen/AcceptApi.lean and pinned by decide (request_attr_table, mime_flag_table, class_overrides_table)",
+        "repr(float) of a quality is modelled as the shortest positional decimal (0.0 for zero); qualities below 1e-4 print in exponent notation and are outside the model (to_header_normal_form is proved for qualities that reprint, all RFC three-decimal qvalues by decide)",
         "known finding F17b: an element whose q parameter is not a token (`;q=`, `;q= 0.5`, `;q =0.5`) keeps q=1 instead of being ignored; invalid_q_ignored is proved for token q texts (header level) and for q parameters that survive parse_options_header, the full-strength negation is proved",
     ],
     trusted_extra=["CPython re / str / float / sorted semantics for the modelled primitives (validated by the stream, not verified)"],
@@ -590,7 +752,7 @@ CHECK = Check(
 )
 
 MANIFEST = {
-    "level_text": "Machine-checked Lean 4 theorems about an executable model of parse_accept_header and the four Accept classes: the generic theorems (stable sort, first match = most specific, optimality and tie-breaking of best_match, none iff no positive offer) hold for every match relation and every total preorder of qualities and specificities and are instantiated for Accept, MIMEAccept, LanguageAccept (all three stages) and CharsetAccept; the model is tied to the code by a differential stream over the property's grammar and the property oracle (independent brute-force reference) runs on the real code.",
+    "level_text": "Machine-checked Lean 4 theorems about an executable model of parse_accept_header and the four Accept classes: the generic theorems (stable sort, first match = most specific, optimality and tie-breaking of best_match, none iff no positive offer) hold for every match relation and every total preorder of qualities and specificities and are instantiated for Accept, MIMEAccept, LanguageAccept (all three stages) and CharsetAccept; the Request attributes accept_mimetypes / accept_charsets / accept_encodings / accept_languages (each proved to depend on its own header only), best_match(default=), best, values, index, item lookup, the accept_html/xhtml/json flags and the to_header -> parse normal form are modelled and proved; the model is tied to the code by two differential streams over the property's grammar and the property oracle (independent brute-force reference) runs on the real code.",
     "level_note": "Trusted: Lean kernel; the correspondence harness; CPython re/str/float/sorted for modelled primitives; codecs.lookup is an opaque parameter; q literals are exact decimals in the model (float() assumed exact below 14 characters). Known finding F17b (unparsable q parameter keeps q=1).",
     "technique": "Lean 4 proof (induction over item / offer lists, generic in order and match relation) + model/code correspondence",
     "design_ref": "DESIGN.md section 4, C17",
